@@ -1117,6 +1117,7 @@ pub fn exec_prim(w: &mut World, op: &Op, fam: &str, rest: &str, env: &mut Env) {
                 8 => { let mut y = x.clone(); y $tra p; IBig::from(y) }
                 9 => { let mut y = x.clone(); y $tra &p; IBig::from(y) }
                 10 => IBig::from(x $tr &<$B>::from(p)),
+                11 => IBig::from(&<$B>::from(p) $tr x),
                 _ => return env.skip(),
             };
             w.i[dst] = r;
